@@ -204,10 +204,12 @@ pub fn accept(edges: &[(usize, Dir, usize, usize)], state: usize, token: usize, 
     if s == "SessionEncrypted" {
         return Want::Accept(state);
     }
-    if s == "Finished" {
-        return Want::Accept(st("Invalid"));
-    }
     let t = TOKENS[token];
+    if s == "Finished" {
+        // "Finished always moves to Invalid" against "HelloRequest is ignored in every state except
+        // None": for a HelloRequest in Finished the two clauses collide - either answer is taken
+        return if t == "hello_request" { Want::Either(st("Invalid")) } else { Want::Accept(st("Invalid")) };
+    }
     if t == "hello_request" {
         // "ignored in every state except None" - but a HelloRequest only ever comes from the server
         // ("each handshake message only from the peer that sends it"): for one sent by the client
@@ -250,10 +252,29 @@ pub fn accept(edges: &[(usize, Dir, usize, usize)], state: usize, token: usize, 
             }
         }
     }
-    match either {
-        Some(b) => Want::Either(b),
-        None => Want::Reject,
+    if let Some(b) = either {
+        return Want::Either(b);
     }
+    // steps the statement's (informal) flow list admits but the code does not model today
+    for (a, d, k, b) in open_steps() {
+        if a == state && k == token && d == to_server {
+            return Want::Either(b);
+        }
+    }
+    Want::Reject
+}
+
+/// "optional CertificateStatus, ServerKeyExchange and client-certificate request" admits a
+/// CertificateStatus that is not followed by a ServerKeyExchange; in a resumed session the server's
+/// ChangeCipherSpec comes first and the client's second. The code rejects these today; a crate that
+/// accepts them (landing where the corresponding flow continues) is within the statement too.
+fn open_steps() -> Vec<(usize, bool, usize, usize)> {
+    vec![
+        (st("CertificateSt"), false, tok("server_done"), st("PskHelloDone")),
+        (st("CertificateSt"), false, tok("certificate_request"), st("CRCertRequest")),
+        (st("ClientChangeCipherSpec"), true, tok("ccs"), st("SessionEncrypted")),
+        (st("AskResumeSession"), false, tok("ccs"), st("AskResumeSession")),
+    ]
 }
 
 // ------------------------------------------------------------------ Phase A
@@ -293,6 +314,23 @@ fn gen_token_msg(rng: &mut Rng, token: usize) -> Item {
                 1 => Item::new("client_key_exchange_ecdh").bytes("body", &m.b("body")[..m.b("body").len().min(200)]),
                 _ => m,
             }
+        }
+        "server_hello_d18" => {
+            // a constructed draft-18 ServerHello can carry any version
+            let mut m = gen::handshake(rng, "server_hello_d18", 120);
+            if rng.chance(1, 2) {
+                m.set("ver", crate::item::Val::Int(gen::version(rng) as u64));
+            }
+            m
+        }
+        "new_session_ticket" => {
+            // any ticket bytes, including none at all
+            let mut m = gen::handshake(rng, "new_session_ticket", 120);
+            if rng.chance(1, 3) {
+                let n = rng.below(3) as usize;
+                m.set("ticket", crate::item::Val::Bytes(rng.bytes(n)));
+            }
+            m
         }
         "ccs" => Item::new("ccs"),
         "alert(warning)" => Item::new("alert").int("level", 1).int("desc", rng.u8() as u64),
@@ -548,8 +586,14 @@ fn do_step(ctx: &mut Ctx, edges: &[(usize, Dir, usize, usize)], st: &mut Track, 
     let sig = format!("flow/{}/{}/{}", STATES[model_before], if to_server { "to_server" } else { "to_client" }, TOKENS[token]);
     let who = if to_server { "from the client" } else { "from the server" };
     let want = match (want, &got) {
-        (Want::Either(m2), Ok(_)) => {
+        (Want::Either(m2), Ok(s2)) => {
             ctx.count("oracle/steps_the_statement_leaves_open", 1);
+            // an open step has an open continuation: the conversation stays under the acceptor only
+            // if the implementation landed where the corresponding flow continues
+            if *s2 != real_state(m2) {
+                st.diverged = true;
+                return;
+            }
             Some(m2)
         }
         (Want::Either(_), Err(_)) => {
